@@ -81,7 +81,7 @@ class SchemaField:
                 err = SchemaField._validate_value_number(
                     value, float, no_nonfinite=True
                 )
-            elif t in {"STRING", "MULTIPLESTRINGVALUE"}:
+            elif t in {"STRING", "MULTIPLESTRINGVALUE", "MULTIPLEVALUESTRING"}:
                 err = SchemaField._validate_value_str(value)
             elif t in {"CHAR"}:
                 err = SchemaField._validate_value_str(value, max_len=1)
@@ -130,9 +130,16 @@ class SchemaField:
 
         try:
             dtm.datetime.strptime(value, format)
-            return None  # all good
         except Exception as exc:
             return str(exc)
+
+        # strptime also takes unpadded parts ('2023921-1:2:3'), FIX layouts are fixed
+        fix_layout = re.escape(format).replace("%Y", "[0-9]{4}")
+        fix_layout = fix_layout.replace("%f", "[0-9]{1,6}")
+        fix_layout = re.sub("%[mdHMS]", "[0-9]{2}", fix_layout)
+        if not re.fullmatch(fix_layout, value, re.ASCII):
+            return f"value does not match fixed layout {format}"
+        return None  # all good
 
     @staticmethod
     def _validate_value_monthyear(value):
@@ -203,6 +210,13 @@ class SchemaField:
                 raise ValueError("not isfinite number")
             if num_range and not (v >= num_range[0] and v <= num_range[1]):
                 raise ValueError(f"out of range {num_range}")
+            # python literals are wider than FIX ones ('1_0', ' 5', '+5', '1e3', ...)
+            if num_type is int:
+                fix_literal = r"-?[0-9]+"
+            else:
+                fix_literal = r"-?([0-9]+\.?[0-9]*|\.[0-9]+)"
+            if not re.fullmatch(fix_literal, value, re.ASCII):
+                raise ValueError(f"invalid FIX {num_type.__name__} literal")
             # all good
             return None
         except ValueError as exc:
